@@ -117,6 +117,43 @@ pub fn run() -> i32 {
     if env_log[1] != env_log[4] || env_log[1].2 == env_log[2].2 {
         bad += 1;
     }
+    // S8: simulated threads run on simulator-placed stacks: the addresses of their locals are a
+    // function of the stack seed alone (and lie in the fixed area); a panic crosses the switch
+    let mut stack_log = vec![];
+    for stack_seed in [0u64, 11, 12, 11] {
+        crate::seams::set_stack_seed(stack_seed);
+        let cfg = Config { workers: 4, strategy: Strategy::Uniform, seed: 3, thread_start: Some(crate::seams::mark_sim_thread), thread_wrap: Some(crate::seams::on_sim_stack), ..Config::default() };
+        let (r, _) = sim::run(cfg, || {
+            let here = 0u8;
+            let caller = std::hint::black_box(&here) as *const u8 as usize;
+            let mut per_thread: Vec<(Option<usize>, usize)> = (0..256u32)
+                .into_par_iter()
+                .map(|_| {
+                    let l = 0u8;
+                    (rayon::current_thread_index(), (std::hint::black_box(&l) as *const u8 as usize) >> 20)
+                })
+                .collect();
+            per_thread.sort();
+            per_thread.dedup();
+            let p = std::panic::catch_unwind(|| rayon::join(|| 1, || panic!("boom on a placed stack"))).is_err();
+            (caller, per_thread, p)
+        });
+        let (caller, per_thread, p) = r.unwrap();
+        println!("stack seed={}: caller local at {:#x}, (thread, MiB) pairs {:x?}", stack_seed, caller, &per_thread[..per_thread.len().min(6)]);
+        let in_area = |a: usize| (0x2000_0000_0000..0x2000_0000_0000 + 24 * (17 << 20)).contains(&a);
+        if !in_area(caller) || !per_thread.iter().all(|(_, mib)| in_area(mib << 20)) || !p {
+            bad += 1;
+        }
+        stack_log.push((caller, per_thread));
+    }
+    crate::seams::set_stack_seed(0);
+    let own = 0u8;
+    if (0x2000_0000_0000..0x2100_0000_0000).contains(&(&own as *const u8 as usize)) || crate::seams::stack_stats().1 != 0 || crate::seams::arena_relocated() != 0 {
+        bad += 1;
+    }
+    if stack_log[1] != stack_log[3] || stack_log[1].0 == stack_log[2].0 || stack_log[0].0 == stack_log[1].0 {
+        bad += 1;
+    }
     println!("poolcheck: {}", if bad == 0 { "OK" } else { "FAILED" });
     if bad == 0 {
         0
